@@ -144,9 +144,9 @@ Definition c02case_of_xt (x : xt) : c02case :=
 Definition encode_case (c : c02case) : res node :=
   encode_glif (fun x => fl_lookup x (c_ff c)) (fun x => fl_lookup x (c_ff3 c))
               (fun z => z_lookup z (c_fi c)) (fun n => n_lookup n (c_fh c)) (c_opts c) (c_glyph c).
-(** class predicates of the glyph: [F3; empty-contour] *)
+(** class predicates of the glyph: [F3] *)
 Definition run_classes (c : c02case) : tm :=
-  L_ [tm_bool (c02_f3 (c_opts c) (c_glyph c)); tm_bool (c02_empty_contour (c_glyph c))].
+  L_ [tm_bool (c02_f3 (c_opts c) (c_glyph c))].
 (** (tree the encoder produces, outcome of reading it back, classes) *)
 Definition run_c02 (x : xt) : tm :=
   let c := c02case_of_xt x in
